@@ -20,12 +20,14 @@ func init() {
 		Rule: "bucket states reached by random arrival histories on the frozen clock (single and 2-3 rate sets); metamorphic twins: the same history on two instances, one additionally flooded with k in {1,10,1000} rejected requests (amount <= burst but unavailable, or > burst), then both drained one token at a time at the same instant (and after a further common advance): drain counts must be equal; " +
 			"a rejected request of amount <= burst is retried after exactly the advertised delay and must pass; an idle source must drain exactly min burst after burst*period/average; amount > burst must yield an error, not a delay; run on TokenBucketSet.Consume and on TokenLimiter.ServeHTTP (X-Retry-In); " +
 			"a quarter of the states are re-configured in place (RateSet.Add on the object in use) before the idle-refill and over-burst steps; concurrent floods alternate amounts and every rejection must advertise amount x token time; " +
+			"part tiers: per-request rate plans for one source (ExtractRates: same period, different averages): a twin flooded with refused requests under the slower plan a fraction of a token time after the burst was used must hand out exactly what the silent twin hands out one token time after the burst; " +
 			"non-trivial = state in which the probe was really rejected (drain count < amount <= burst); distinct by (rates, history, k)",
 		Assumptions: []string{"frozen library clock (hook)", "twin comparison at a single instant so that legitimate sub-token refill effects cancel"},
 		Parts: []Part{
 			{Name: "set", Shards: 8, Fn: c13Set},
 			{Name: "http", Shards: 8, Fn: c13HTTP},
 			{Name: "floodconc", Race: true, Shards: 4, Fn: c13FloodConc},
+			{Name: "tiers", Shards: 4, Fn: c13Tiers},
 		},
 	})
 }
@@ -482,4 +484,101 @@ func c13FloodConc(c *Ctx) {
 		c.Count("floodconc_nontrivial", 1)
 	})
 	c.Require("floodconc_nontrivial", 2)
+}
+
+// c13Tiers: one source whose requests are limited under per-request rate plans (ExtractRates: an endpoint- or tier-specific
+// average for the same period). Rejected requests under the other plan must cost nothing: a twin that receives a flood of
+// them between two admissions must hand out exactly what the silent twin hands out.
+func c13Tiers(c *Ctx) {
+	c.Cases("tiers", c.N(400, 12000), func(i int, r *rand.Rand) {
+		freeze(baseTime.Add(time.Duration(r.Int64N(1e9))))
+		defer unfreeze()
+		period := pick(r, []time.Duration{time.Second, 10 * time.Second, time.Minute})
+		avgA := int64(2 + r.IntN(19))
+		burst := avgA + int64(r.IntN(int(2*avgA)))
+		avgB := 1 + r.Int64N(avgA-1) // the other plan is slower: its token time is longer
+		burstB := pick(r, []int64{burst, 2 * burst})
+		tauA := time.Duration(int64(period) / avgA)
+		mk := func() (func(tier string, amt int64) (bool, time.Duration), *int) {
+			n := new(int)
+			setA := mkRateSet([]rateSpec{{period, avgA, burst}})
+			setB := mkRateSet([]rateSpec{{period, avgB, burstB}})
+			tl, err := ratelimit.New(http.HandlerFunc(func(http.ResponseWriter, *http.Request) { *n++ }), hdrExtractor, mkRateSet([]rateSpec{{time.Second, 1, 1}}),
+				ratelimit.ExtractRates(ratelimit.RateExtractorFunc(func(req *http.Request) (*ratelimit.RateSet, error) {
+					if req.Header.Get("X-Tier") == "B" {
+						return setB, nil
+					}
+					return setA, nil
+				})))
+			if err != nil {
+				panic(err)
+			}
+			return func(tier string, amt int64) (bool, time.Duration) {
+				req := httptest.NewRequest("GET", "http://x.test/", nil)
+				req.Header.Set("X-Src", "tenant")
+				req.Header.Set("X-Tier", tier)
+				req.Header.Set("X-Amt", strconv.FormatInt(amt, 10))
+				rec := httptest.NewRecorder()
+				before := *n
+				tl.ServeHTTP(rec, req)
+				if *n == before+1 {
+					return true, 0
+				}
+				d, _ := time.ParseDuration(rec.Header().Get("X-Retry-In"))
+				return false, d
+			}, n
+		}
+		silent, _ := mk()
+		flooded, _ := mk()
+		desc := map[string]any{"period": period.String(), "plan_A": []int64{avgA, burst}, "plan_B": []int64{avgB, burstB}}
+		// both: the whole burst at the first instant (plan A)
+		for _, tw := range []func(string, int64) (bool, time.Duration){silent, flooded} {
+			if ok, _ := tw("A", burst); !ok {
+				c.Violation("tiers/first-burst-refused", sfmt("a fresh source asking for its whole burst %d under plan A (%d per %v) was refused", burst, avgA, period), desc)
+				return
+			}
+		}
+		// part of a token time later, the flooded twin receives k requests under plan B; nothing is available: all refused
+		frac := time.Duration(1 + r.Int64N(int64(tauA)-1))
+		advance(frac)
+		k := pick(r, []int{1, 3, 10, 200})
+		for q := 0; q < k; q++ {
+			if ok, _ := flooded("B", 1); ok {
+				c.Eval()
+				c.Violation("tiers/admitted-from-empty", sfmt("%v after the source had used its whole burst (plan A: %d per %v, burst %d), a request under plan B (%d per %v) was admitted although not even plan A's token time %v has passed", frac, avgA, period, burst, avgB, period, tauA), desc)
+				return
+			}
+			if q%3 == 2 && frac+time.Duration(q) < tauA-2 {
+				advance(1) // the flood is spread over a few nanoseconds
+				frac++
+			}
+		}
+		// the rest of the token time (and j more) later both twins are drained under plan A
+		j := int64(r.IntN(3))
+		if j > burst-1 {
+			j = burst - 1
+		}
+		advance(tauA - frac + time.Duration(j)*tauA)
+		drain := func(tw func(string, int64) (bool, time.Duration)) int64 {
+			var got int64
+			for got <= burst+2 {
+				if ok, _ := tw("A", 1); !ok {
+					break
+				}
+				got++
+			}
+			return got
+		}
+		ds, df := drain(silent), drain(flooded)
+		c.Eval()
+		if ds != df {
+			c.Violation("tiers/rejected-requests-cost", sfmt("plan A %d per %v (burst %d), plan B %d per %v: whole burst used, then %d requests under plan B refused %v later, then both twins drained %v after the burst: the silent twin hands out %d token(s), the flooded twin %d", avgA, period, burst, avgB, period, k, frac, tauA+time.Duration(j)*tauA, ds, df), desc)
+			return
+		}
+		if ds >= 1 {
+			c.Nontrivial(sfmt("tiers/%v/%d/%d/%d/%d/%v", period, avgA, burst, avgB, k, frac))
+			c.Count("tier_floods_nontrivial", 1)
+		}
+	})
+	c.Require("tier_floods_nontrivial", 2)
 }
